@@ -1,9 +1,10 @@
 \* manual mode, "wide": all identifiers incl. nullptr, remove(), ties and past time points; <= 3 sleeps pending
+\* (time in half ticks: even = a tick, odd = 1 ns before the next tick -- get_expired probes)
 SPECIFICATION Spec
 CONSTANTS
   Mode = "manual"
-  TPs = {1, 2}
-  Nows = {0, 1, 2}
+  TPs = {2, 4}
+  Nows = {1, 2, 3, 4}
   Ids = {0, 1, 2}
   CancelIds = {0, 1, 2}
   MaxSleeps = 3
